@@ -6,6 +6,8 @@
  * exactly as configure concatenates longlong_pre.h + longlong_inc.h +
  * longlong_post.h into /repo/longlong.h.
  *
+ * NOTE: CBMC ignores __attribute__((mode(DI))) and would make gmp-impl.h's UDItype 32 bits wide; the models
+ * therefore use plain unsigned long.  No other /repo text uses the mode attribute.
  * Models (DESIGN 3.5):
  *  umul_ppmm   uninterpreted mulq (hi,lo) + the axioms carry arithmetic relies on
  *  udiv_qrnnd  asserts n1 < d (divq raises #DE otherwise), uninterpreted q, r < d
@@ -26,17 +28,17 @@ unsigned long __CPROVER_uninterpreted_divr (unsigned long, unsigned long, unsign
    needed; multiplying by 0 or 1 is exact. */
 #define umul_ppmm(w1, w0, u, v)                                               \
   do {                                                                        \
-    UDItype __vu = (u), __vv = (v);                                           \
+    unsigned long __vu = (u), __vv = (v);                                           \
     (w1) = __CPROVER_uninterpreted_mulhi (__vu, __vv);                        \
     (w0) = __CPROVER_uninterpreted_mullo (__vu, __vv);                        \
-    __CPROVER_assume ((w1) <= ~(UDItype) 1);                                  \
+    __CPROVER_assume ((w1) <= ~(unsigned long) 1);                                  \
     __CPROVER_assume (__vu > 1 || ((w1) == 0 && (w0) == (__vu ? __vv : 0)));  \
     __CPROVER_assume (__vv > 1 || ((w1) == 0 && (w0) == (__vv ? __vu : 0)));  \
   } while (0)
 
 #define udiv_qrnnd(q, r, n1, n0, dx)                                          \
   do {                                                                        \
-    UDItype __vn1 = (n1), __vn0 = (n0), __vd = (dx);                          \
+    unsigned long __vn1 = (n1), __vn0 = (n0), __vd = (dx);                          \
     __CPROVER_assert (__vn1 < __vd, "[C02][C04] divq operand: high word below divisor (no #DE)"); \
     (q) = __CPROVER_uninterpreted_divq (__vn1, __vn0, __vd);                  \
     (r) = __CPROVER_uninterpreted_divr (__vn1, __vn0, __vd);                  \
@@ -46,14 +48,14 @@ unsigned long __CPROVER_uninterpreted_divr (unsigned long, unsigned long, unsign
 
 #define count_leading_zeros(count, x)                                         \
   do {                                                                        \
-    UDItype __vx = (x);                                                       \
+    unsigned long __vx = (x);                                                       \
     __CPROVER_assert (__vx != 0, "[C04] count_leading_zeros operand non-zero (bsr undefined at 0)"); \
     (count) = __builtin_clzl (__vx);                                          \
   } while (0)
 
 #define count_trailing_zeros(count, x)                                        \
   do {                                                                        \
-    UDItype __vx = (x);                                                       \
+    unsigned long __vx = (x);                                                       \
     __CPROVER_assert (__vx != 0, "[C04] count_trailing_zeros operand non-zero (bsf undefined at 0)"); \
     (count) = __builtin_ctzl (__vx);                                          \
   } while (0)
